@@ -444,6 +444,20 @@ async def _server_process(process):
                         break
                     process.stdout.write(d)
                     await process.stdout.drain()
+            elif k == 'techo':
+                # text session: every line read from stdin is written back in several separate writes
+                while True:
+                    line = await process.stdin.readline()
+                    if not line:
+                        break
+                    cuts = a[1]
+                    pos = 0
+                    for c in cuts:
+                        process.stdout.write(line[pos:pos + c])
+                        pos += c
+                    process.stdout.write(line[pos:])
+                    process.stderr.write(line[:1])
+                    process.stderr.write(line[1:])
             elif k == 'prog':
                 res = []
                 SRV_RESULTS[process.command] = res
@@ -1339,6 +1353,8 @@ async def e2e_redirect(ctx, tmp):
                 except asyncio.TimeoutError:
                     why = 'the redirected process did not finish'
                     hangs += 1
+                except (KeyError, AttributeError, TypeError, AssertionError, IndexError, RuntimeError) as e:
+                    why = f'setting up or running the redirection raised {type(e).__name__}({e})'
                 ctx.note_case(('redir-e2e',) + tuple(sorted(params.items())), nontrivial=size > 0)
                 ctx.count('redirect_e2e.' + kind)
                 ctx.count('redirect_e2e.api.' + api)
@@ -1378,10 +1394,161 @@ def stage_redirect_e2e(ctx):
         shutil.rmtree(tmp, ignore_errors=True)
 
 
+STATEFUL_ENCODINGS = ['utf-16', 'utf-32', 'utf-8-sig']
+
+
+async def case_textenc(enc, pieces, cuts, mode):
+    """text session with an encoding that has stream state, several writes on both sides.
+    pieces: what the client writes to stdin (one write each); the server echoes every line with several
+    writes.  mode 'wait': compare wait().stdout/.stderr; mode 'readline': read the echo line by line."""
+    listener, conn = await sshutil.loopback(srv_kw={'process_factory': _server_process, 'encoding': enc})
+    try:
+        proc = await conn.create_process(new_id([('techo', cuts), ('exit', 0)]), encoding=enc)
+        for pc in pieces:
+            proc.stdin.write(pc)
+            await proc.stdin.drain()
+            await asyncio.sleep(0)
+        proc.stdin.write_eof()
+        if mode == 'wait':
+            res = await asyncio.wait_for(proc.wait(), 60)
+            return res.stdout, res.stderr
+        lines = []
+        while True:
+            ln = await asyncio.wait_for(proc.stdout.readline(), 60)
+            if not ln:
+                break
+            lines.append(ln)
+        err = await asyncio.wait_for(proc.stderr.read(), 60)
+        return lines, err
+    finally:
+        conn.close()
+        listener.close()
+        await listener.wait_closed()
+
+
+def judge_textenc(pieces, mode, got):
+    text = ''.join(pieces)
+    out, err = got
+    if mode == 'wait':
+        if out != text or err != text:
+            return f'wait() returned stdout {out!r} and stderr {err!r} for the text {text!r}'
+    else:
+        want = text.splitlines(True)
+        if out != want or err != text:
+            return f'readline() returned {out!r} (expected {want!r}), stderr {err!r}'
+    return None
+
+
+async def case_pipeline(conn, out, err, src_stream, how, buffered, piece):
+    """process-to-process redirection.  The source writes `out` to stdout and `err` to stderr; its src_stream is
+    routed into a sink process that echoes stdin to stdout.  how = 'sink_stdin' (sink created with
+    stdin=src.<stream>) or 'src_target' (source created with <stream>=sink.stdin).  buffered = the source's
+    output is already in its receive buffer when the redirect is installed.
+    Returns (sink output, what stays readable at the source on stdout, on stderr)."""
+    import random
+    r = random.Random(len(out) * 7 + len(err))
+    acts = []
+    co, ce = chop(r, out, piece), chop(r, err, piece)
+    while co or ce:
+        if co and (not ce or r.random() < 0.5):
+            acts += [('out', co.pop(0)), ('drain',)]
+        else:
+            acts += [('err', ce.pop(0)), ('drain',)]
+    acts.append(('exit', 0))
+    if how == 'sink_stdin':
+        src = await conn.create_process(new_id(acts), encoding=None)
+        if buffered:
+            await asyncio.sleep(0.05)
+        sink = await conn.create_process(new_id([('cat',), ('exit', 0)]), encoding=None,
+                                         stdin=src.stdout if src_stream == 'stdout' else src.stderr)
+    else:
+        sink = await conn.create_process(new_id([('cat',), ('exit', 0)]), encoding=None)
+        if buffered:
+            src = await conn.create_process(new_id(acts), encoding=None)
+            await asyncio.sleep(0.05)
+            await src.redirect(**{src_stream: sink.stdin})
+        else:
+            src = await conn.create_process(new_id(acts), encoding=None, **{src_stream: sink.stdin})
+    sres = await asyncio.wait_for(sink.wait(), 60)
+    res = await asyncio.wait_for(src.wait(), 60)
+    return bytes(sres.stdout), bytes(res.stdout or b''), bytes(res.stderr or b'')
+
+
+def judge_pipeline(out, err, src_stream, got):
+    sunk, left_out, left_err = got
+    routed, other = (out, err) if src_stream == 'stdout' else (err, out)
+    left_routed, left_other = (left_out, left_err) if src_stream == 'stdout' else (left_err, left_out)
+    if sunk != routed:
+        return (f'the sink received {len(sunk)} bytes, the routed {src_stream} stream had {len(routed)}'
+                + (' (it received the other stream)' if sunk == other and other else ''))
+    if left_routed != b'':
+        return f'{len(left_routed)} bytes of the routed {src_stream} stream were also left at the source'
+    if left_other != other:
+        return f'the stream that was not routed kept {len(left_other)} of its {len(other)} bytes at the source'
+    return None
+
+
+async def e2e_more(ctx):
+    rng = ctx.rng
+    # ---- (f) stateful encodings, several writes on both sides ---------------------------------------
+    for i in range(18 if ctx.tier == 'thorough' else 6):
+        enc = STATEFUL_ENCODINGS[i % 3]
+        text = ''.join(rng.choice(['a', 'é', '€', '\n', 'b', 'ß', '\n']) for _ in range(rng.randint(4, 14))) + '\n'
+        pieces = [p.decode('latin-1') for p in chop(rng, text.encode('utf-8'), 3)]
+        pieces = []
+        pos = 0
+        while pos < len(text):
+            k = rng.randint(1, 4)
+            pieces.append(text[pos:pos + k])
+            pos += k
+        cuts = [rng.randint(0, 2) for _ in range(rng.randint(1, 2))]
+        mode = 'wait' if i % 2 == 0 else 'readline'
+        try:
+            got = await case_textenc(enc, pieces, cuts, mode)
+            why = judge_textenc(pieces, mode, got)
+        except asyncio.TimeoutError:
+            why = 'the session did not finish'
+        ctx.note_case(('e2e-textenc', enc, tuple(pieces), tuple(cuts), mode), nontrivial=len(pieces) > 1)
+        ctx.count('e2e_textenc.' + enc)
+        if why:
+            report_once(ctx, 'textenc:' + enc, f'text session with encoding {enc}, {len(pieces)} writes to stdin, echo in '
+                        f'{len(cuts) + 1} writes per line: {why}',
+                        {'kind': 'e2e_textenc', 'class': 'encoding', 'enc': enc, 'pieces': pieces, 'cuts': cuts, 'mode': mode})
+    # ---- (g) process-to-process pipelines -------------------------------------------------------------
+    listener, conn = await sshutil.loopback(srv_kw={'process_factory': _server_process, 'encoding': None})
+    try:
+        combos = [(s, h, b) for s in ('stdout', 'stderr') for h in ('sink_stdin', 'src_target') for b in (True, False)]
+        for rnd in range(4 if ctx.tier == 'thorough' else 1):
+            for src_stream, how, buffered in combos:
+                out = bytes(rng.choice(b'oO0') for _ in range(rng.choice([1, 50, 3000, 40000])))
+                err = bytes(rng.choice(b'eE3') for _ in range(rng.choice([1, 50, 3000, 40000])))
+                piece = rng.choice([100, 5000])
+                try:
+                    got = await case_pipeline(conn, out, err, src_stream, how, buffered, piece)
+                    why = judge_pipeline(out, err, src_stream, got)
+                except (KeyError, AttributeError, TypeError, AssertionError, IndexError, RuntimeError) as e:
+                    why = f'setting up or running the pipeline raised {type(e).__name__}({e})'
+                except asyncio.TimeoutError:
+                    why = 'the pipeline did not finish'
+                ctx.note_case(('e2e-pipeline', src_stream, how, buffered, len(out), len(err), piece), nontrivial=True)
+                ctx.count('e2e_pipeline.%s.%s.%s' % (src_stream, how, 'buffered' if buffered else 'live'))
+                if why:
+                    report_once(ctx, 'pipeline:%s:%s:%s' % (src_stream, how, buffered),
+                                f'pipeline source.{src_stream} -> sink.stdin installed via {how}, output '
+                                f'{"already buffered" if buffered else "not yet received"}: {why}',
+                                {'kind': 'e2e_pipeline', 'class': 'pipeline', 'out': list(out), 'err': list(err),
+                                 'src_stream': src_stream, 'how': how, 'buffered': buffered, 'piece': piece})
+    finally:
+        conn.close()
+        listener.close()
+        await listener.wait_closed()
+
+
 def stage_e2e(ctx):
     import logging
     logging.getLogger('asyncio').setLevel(logging.ERROR)    # teardown noise of closed sockets
     sshutil.run(e2e_all(ctx), timeout=3000)
+    sshutil.run(e2e_more(ctx), timeout=1500)
 
 
 def run(ctx):
@@ -1478,6 +1645,24 @@ def replay(rp):
                 listener.close()
                 await listener.wait_closed()
         return sshutil.run(go(), timeout=300)
+    if kind in ('e2e_textenc', 'e2e_pipeline'):
+        async def go2():
+            if kind == 'e2e_textenc':
+                got = await case_textenc(rp['enc'], rp['pieces'], rp['cuts'], rp['mode'])
+                why = judge_textenc(rp['pieces'], rp['mode'], got)
+            else:
+                listener, conn = await sshutil.loopback(srv_kw={'process_factory': _server_process, 'encoding': None})
+                try:
+                    got = await case_pipeline(conn, bytes(rp['out']), bytes(rp['err']), rp['src_stream'], rp['how'],
+                                              rp['buffered'], rp['piece'])
+                    why = judge_pipeline(bytes(rp['out']), bytes(rp['err']), rp['src_stream'], got)
+                finally:
+                    conn.close()
+                    listener.close()
+                    await listener.wait_closed()
+            print(kind, '->', why)
+            return 1 if why else 0
+        return sshutil.run(go2(), timeout=300)
     if kind == 'redirect_e2e':
         import logging
         import random
